@@ -797,6 +797,22 @@ func (g *generator) enterNextFinallyFrame() (canContinue bool) {
 
 func (g *generator) step() (res Value, resultType resultType, ex *Exception) {
 	vm := g.vm
+	defer func() {
+		if x := recover(); x != nil {
+			// An uncatchable exception (interrupt, stack overflow) or a foreign panic is propagating,
+			// the callers will not get to remove the frames set up by enter()/enterNext().
+			for uint32(len(vm.tryStack)) > g.tryStackLen {
+				// finally frames converted by enterNextFinallyFrame()
+				vm.popTryFrame()
+			}
+			if l := int(vm.tryStack[len(vm.tryStack)-1].callStackLen); l < len(vm.callStack) {
+				vm.callStack = vm.callStack[:l]
+			}
+			vm.popTryFrame()
+			vm.popCtx()
+			panic(x)
+		}
+	}()
 	if g.returning == nil {
 		for {
 			ex = vm.runTryInner()
